@@ -376,6 +376,33 @@ control characters any more -/
 theorem url_roundtrip_small_scope : urlRoundTripOn (allStrings (0x7F :: 0x3B :: strAlphabet) 3) = true := by
   decide +kernel
 
+/-! ### source strings / URLs through the tokenizer-side value function (`Model/NumTok.lean`, `tokenValue`) -/
+
+/-- `C18-backslash-then-hex-escape`: `"\\\22 "` (an escaped backslash, then U+0022 as a hex escape) denotes `\"` but is
+stored as `\"`, which stands for `"` alone; `"\\\a "` denotes backslash + line feed but is stored as the empty string -/
+theorem backslash_hex_escape_witness :
+    cssStringDenote (cps "\"\\\\\\22 \"") = some (cps "\\\"") ∧
+    stringSourceValue (cps "\"\\\\\\22 \"") = .ok (cps "\\\"") ∧ storedDenote (cps "\\\"") = cps "\"" ∧
+    cssStringDenote (cps "\"\\\\\\a \"") = some [0x5C, 0x0A] ∧
+    stringSourceValue (cps "\"\\\\\\a \"") = .ok [] := by decide +kernel
+
+/-- `C18-url-line-continuation`: a line continuation inside a quoted `url()` stays in the value (`cleanstring` is
+applied to STRING tokens only), although the string denotes `ab` -/
+theorem url_line_continuation_witness :
+    uriSourceValue (cps "url(\"a\\" ++ [0x0A] ++ cps "b\")") = .ok (cps "a\\" ++ [0x0A] ++ cps "b") ∧
+    cssStringDenote (cps "\"a\\" ++ [0x0A] ++ cps "b\"") = some (cps "ab") ∧
+    stringSourceValue (cps "\"a\\" ++ [0x0A] ++ cps "b\"") = .ok (cps "ab") := by decide +kernel
+
+/-- `C18-url-edge-escape` at source level: `url(\20 a)` denotes ` a`, its uri is `a` -/
+theorem url_edge_source_witness :
+    uriSourceValue (cps "url(\\20 a)") = .ok (cps "a") ∧ uriSourceValue (cps "url(\\27 x\\27 )") = .ok (cps "x") := by
+  decide +kernel
+
+/-- ordinary sources (tests): hex escapes, simple escapes, both quote styles, padding -/
+example : stringSourceValue (cps "'a\\41 \\\"b\\'c'") = .ok (cps "aA\\\"b'c") := by decide +kernel
+example : uriSourceValue (cps "url( 'a b' )") = .ok (cps "a b") := by decide +kernel
+example : uriSourceValue (cps "URL(a\\ b\\29 )") = .ok (cps "a\\ b)") := by decide +kernel
+
 /-- samples where the written form does denote the stored value (tests) -/
 example : cssStringDenote (helperString (cps "a\"b'c")) = some (cps "a\"b'c") := by decide +kernel
 example : cssStringDenote (helperString [0x61, 0x0A, 0x62, 0x0D, 0x5C]) = some [0x61, 0x0A, 0x62, 0x0D, 0x5C] := by
